@@ -989,6 +989,29 @@ func genSTLSubs(r *rng, sym []byte) *astisub.Subtitles {
 			}
 			it.Lines = append(it.Lines, ln)
 		}
+		if r.chance(1, 6) && len(it.Lines) > 0 {
+			// fill the text field: the encoded text ends just below, exactly at, or just beyond the
+			// 112 bytes of a TTI block (rows joined by one byte, style codes and accents add a few)
+			n := 0
+			for _, ln := range it.Lines {
+				n++
+				for _, li := range ln.Items {
+					n += len([]rune(li.Text))
+				}
+			}
+			ln := &it.Lines[len(it.Lines)-1]
+			li := &ln.Items[len(ln.Items)-1]
+			var sb strings.Builder
+			sb.WriteString(li.Text)
+			for target := int(r.rangeI(100, 118)); n < target; n++ {
+				if n%7 == 3 && n+1 < target {
+					sb.WriteByte(' ')
+				} else {
+					sb.WriteByte(byte('a' + r.intn(26)))
+				}
+			}
+			li.Text = sb.String()
+		}
 		s.Items = append(s.Items, it)
 	}
 	return s
